@@ -128,6 +128,8 @@ pub struct FillCheck {
     pub outside: u64,
     pub skipped: u64,
     pub violation: Option<String>,
+    /// every pixel that failed (the message above describes the first)
+    pub failed: Vec<(i32, i32)>,
 }
 
 /// compares coverage bytes (255 expected inside, 0 outside) with the winding oracle
@@ -139,7 +141,7 @@ pub fn check_fill(cov: &[u8], w: i32, h: i32, path: &Path, t: &Transform, margin
 /// the same against an outline given directly in device space
 pub fn check_fill_subs(cov: &[u8], w: i32, h: i32, subs: &[Sub], evenodd: bool, margin: f64) -> FillCheck {
     let r = margin + std::f64::consts::FRAC_1_SQRT_2 + 1e-3;
-    let mut res = FillCheck { inside: 0, outside: 0, skipped: 0, violation: None };
+    let mut res = FillCheck { inside: 0, outside: 0, skipped: 0, violation: None, failed: Vec::new() };
     for y in 0..h {
         for x in 0..w {
             let c = P::new(x as f64 + 0.5, y as f64 + 0.5);
@@ -152,18 +154,106 @@ pub fn check_fill_subs(cov: &[u8], w: i32, h: i32, subs: &[Sub], evenodd: bool, 
             let v = cov[(y * w + x) as usize];
             if inside {
                 res.inside += 1;
-                if v != 255 && res.violation.is_none() {
-                    res.violation = Some(format!("pixel ({},{}) is inside the shape (winding number {}) more than {} px from its outline but has coverage {}", x, y, wn, margin, v));
+                if v != 255 {
+                    res.failed.push((x, y));
+                    if res.violation.is_none() {
+                        res.violation = Some(format!("pixel ({},{}) is inside the shape (winding number {}) more than {} px from its outline but has coverage {}", x, y, wn, margin, v));
+                    }
                 }
             } else {
                 res.outside += 1;
-                if v != 0 && res.violation.is_none() {
-                    res.violation = Some(format!("pixel ({},{}) is outside the shape (winding number {}) more than {} px from its outline but has coverage {}", x, y, wn, margin, v));
+                if v != 0 {
+                    res.failed.push((x, y));
+                    if res.violation.is_none() {
+                        res.violation = Some(format!("pixel ({},{}) is outside the shape (winding number {}) more than {} px from its outline but has coverage {}", x, y, wn, margin, v));
+                    }
                 }
             }
         }
     }
     res
+}
+
+/// Known finding `shallow-hairpin-tip-overshoot`: the places where it can occur. A curve piece that turns round in x
+/// (dx/dt = 0 inside the piece) while it runs almost level there looks, near that tip T, like the parabola
+/// x = Tx -+ k (y - Ty)^2; the rasteriser walks a curve's chords one sample row (1/4 px) at a time, starting each chord
+/// from a vertex that lies between two sample rows, and so runs up to a sample row past the end of a chord - along
+/// the chord, which at such a tip is a step of several pixels in x beyond the tip. Returns (T, k) in device space for
+/// every tip with k >= 32 px per px^2 (a sixteenth of a pixel in y is then more than an eighth of a pixel in x... and
+/// a whole sample row is 2 px and more).
+fn shallow_hairpin_tips(path: &Path, t: &Transform) -> Vec<(P, f64)> {
+    let t64 = T64::from(t);
+    let mut tips = Vec::new();
+    let mut cur: Option<P> = None;
+    let mut start: Option<P> = None;
+    let map = |p: Point| -> P { let (x, y) = t64.apply(p.x as f64, p.y as f64); P::new(x, y) };
+    let mut scan = |pts: &[P]| {
+        // pts: control polygon of a quadratic (3) or cubic (4) in device space
+        let eval = |u: f64| -> (P, P, P) {
+            if pts.len() == 3 {
+                let m = 1. - u;
+                let p = pts[0].mul(m * m).add(pts[1].mul(2. * m * u)).add(pts[2].mul(u * u));
+                let d = pts[1].sub(pts[0]).mul(2. * m).add(pts[2].sub(pts[1]).mul(2. * u));
+                let dd = pts[0].sub(pts[1].mul(2.)).add(pts[2]).mul(2.);
+                (p, d, dd)
+            } else {
+                let m = 1. - u;
+                let p = pts[0].mul(m * m * m).add(pts[1].mul(3. * m * m * u)).add(pts[2].mul(3. * m * u * u)).add(pts[3].mul(u * u * u));
+                let d = pts[1].sub(pts[0]).mul(3. * m * m).add(pts[2].sub(pts[1]).mul(6. * m * u)).add(pts[3].sub(pts[2]).mul(3. * u * u));
+                let dd = pts[2].sub(pts[1].mul(2.)).add(pts[0]).mul(6. * m).add(pts[3].sub(pts[2].mul(2.)).add(pts[1]).mul(6. * u));
+                (p, d, dd)
+            }
+        };
+        let n = 512;
+        let mut prev = eval(0.).1.x;
+        for i in 1..=n {
+            let u = i as f64 / n as f64;
+            let dx = eval(u).1.x;
+            if (prev < 0.) != (dx < 0.) || dx == 0. {
+                let (p, d, dd) = eval(u - 0.5 / n as f64);
+                let k = dd.x.abs() / (2. * d.y * d.y).max(1e-300);
+                if k >= 32. {
+                    tips.push((p, k));
+                }
+            }
+            prev = dx;
+        }
+    };
+    for op in &path.ops {
+        match *op {
+            PathOp::MoveTo(p) => { cur = Some(map(p)); start = cur; }
+            PathOp::LineTo(p) => { if cur.is_none() { start = Some(map(p)); } cur = Some(map(p)); }
+            PathOp::Close => { cur = start; }
+            PathOp::QuadTo(c, p) => {
+                let a = cur.unwrap_or(map(c));
+                if cur.is_none() { start = Some(a); }
+                scan(&[a, map(c), map(p)]);
+                cur = Some(map(p));
+            }
+            PathOp::CubicTo(c1, c2, p) => {
+                let a = cur.unwrap_or(map(c1));
+                if cur.is_none() { start = Some(a); }
+                scan(&[a, map(c1), map(c2), map(p)]);
+                cur = Some(map(p));
+            }
+        }
+    }
+    tips
+}
+
+/// a failed fill check is attributed to the known finding when every failing pixel lies next to such a tip: within
+/// 2 px of its height and no further beyond or before it in x than the parabola moves in one sample row at that
+/// height difference, plus a pixel
+fn only_shallow_hairpin_tips(res: &FillCheck, path: &Path, t: &Transform) -> bool {
+    if res.failed.is_empty() {
+        return false;
+    }
+    let tips = shallow_hairpin_tips(path, t);
+    !tips.is_empty()
+        && res.failed.iter().all(|(x, y)| {
+            let c = P::new(*x as f64 + 0.5, *y as f64 + 0.5);
+            tips.iter().any(|(tp, k)| (c.y - tp.y).abs() <= 2. && (c.x - tp.x).abs() <= (k * 0.25 * 0.75 + 2.).min(24.))
+        })
 }
 
 pub fn run(ctx: &Ctx) -> Outcome {
@@ -172,6 +262,48 @@ pub fn run(ctx: &Ctx) -> Outcome {
          filled white on transparent and used as clip paths; every pixel whose square is more than 1 px from the exact outline (f64, 256 samples per curve) must be 255 if the winding rule says inside and 0 otherwise. Non-trivial: inside and outside pixels asserted; distinct = hash of the case.",
     );
     let secs = if ctx.quick() { 40. } else { 900. };
+    // the known finding's own input (a level hairpin 4500 px long whose tip lies on the surface), as a fill and as a clip
+    run_cases(ctx, &mut out, SubSpec { name: "directed", cases: 2, exhaustive: false, max_secs: 30. }, |i, want, st| {
+        let mut pb = PathBuilder::new();
+        pb.move_to(3.744384, 17.724064);
+        pb.close();
+        pb.line_to(-2286.2268, 11.823865);
+        pb.quad_to(2240.1604, 8.282992, -2136.1448, 16.746912);
+        pb.quad_to(2478.035, 1.0, 17.051376, 0.7944523);
+        let path = pb.finish();
+        let t = Transform::identity();
+        let (w, h) = (43, 17);
+        let as_clip = i == 1;
+        let mut dt = DrawTarget::new(w, h);
+        let cov: Vec<u8> = if as_clip {
+            dt.push_clip(&path);
+            let c = effective_clip(&mut dt, w, h);
+            dt.pop_clip();
+            c
+        } else {
+            dt.fill(&path, &Source::Solid(WHITE), &opts(BlendMode::SrcOver, 1., true));
+            dt.get_data().iter().map(|p| (p >> 24) as u8).collect()
+        };
+        let res = check_fill(&cov, w, h, &path, &t, 1.0);
+        st.add("px_inside_asserted", res.inside);
+        st.add("px_outside_asserted", res.outside);
+        let mut co = CaseOut::default();
+        co.hash = i + 1;
+        co.nontrivial = res.outside > 0;
+        if res.violation.is_some() && ctx.known.active("C08", "shallow-hairpin-tip-overshoot") && only_shallow_hairpin_tips(&res, &path, &t) {
+            co.known.push(("C08:shallow-hairpin-tip-overshoot".to_string(), res.violation.clone().unwrap()));
+        } else if let Some(v) = res.violation {
+            co.viol("C08", format!("{}: {}", if as_clip { "push_clip" } else { "fill" }, v));
+        }
+        if want || !co.violations.is_empty() {
+            let mut d = J::obj();
+            d.set("surface", J::s(&format!("{}x{}", w, h)));
+            d.set("path", J::s(&path_str(&path)));
+            d.set("used_as_clip_path", J::Bool(as_clip));
+            co.desc = Some(d);
+        }
+        co
+    });
     run_cases(ctx, &mut out, SubSpec { name: "curved_fills_and_clips", cases: ctx.n(20_000, 1_000_000), exhaustive: false, max_secs: secs }, |i, want, st| {
         let mut rng = ctx.rng("curved_fills_and_clips", i);
         let w = rng.int(6, 48) as i32;
@@ -210,7 +342,9 @@ pub fn run(ctx: &Ctx) -> Outcome {
         let mut co = CaseOut::default();
         co.hash = crate::prng::hash_str(&format!("{:?}{:?}{}{}", path, t, aa, as_clip));
         co.nontrivial = res.inside > 0 && res.outside > 0;
-        if let Some(v) = res.violation {
+        if res.violation.is_some() && ctx.known.active("C08", "shallow-hairpin-tip-overshoot") && only_shallow_hairpin_tips(&res, &path, &t) {
+            co.known.push(("C08:shallow-hairpin-tip-overshoot".to_string(), res.violation.clone().unwrap()));
+        } else if let Some(v) = res.violation {
             co.viol("C08", format!("{}: {}", if as_clip { "push_clip" } else { "fill" }, v));
         }
         if want || !co.violations.is_empty() {
@@ -317,7 +451,7 @@ pub fn run(ctx: &Ctx) -> Outcome {
     // curves thousands of pixels long whose turning point in y (or x) lies within a few thousandths of their
     // parameter range from one end (the control point overshoots that end by a few pixels); the surface looks at
     // the middle of the curve, where a curve whose overshoot was handled wrongly is off by half the overshoot
-    run_cases(ctx, &mut out, SubSpec { name: "long_curves_turning_right_at_an_end", cases: ctx.n(2_500, 100_000), exhaustive: false, max_secs: secs }, |i, want, st| {
+    run_cases(ctx, &mut out, SubSpec { name: "long_curves_turning_right_at_an_end", cases: ctx.n(2_500, 40_000), exhaustive: false, max_secs: secs }, |i, want, st| {
         let mut rng = ctx.rng("long_curves_turning_right_at_an_end", i);
         let w = rng.int(24, 48) as i32;
         let h = rng.int(24, 48) as i32;
@@ -427,7 +561,9 @@ pub fn run(ctx: &Ctx) -> Outcome {
         let mut co = CaseOut::default();
         co.hash = crate::prng::hash_str(&format!("{:?}{}{}", path, aa, as_clip));
         co.nontrivial = res.inside > 0 && res.outside > 0;
-        if let Some(v) = res.violation {
+        if res.violation.is_some() && ctx.known.active("C08", "shallow-hairpin-tip-overshoot") && only_shallow_hairpin_tips(&res, &path, &t) {
+            co.known.push(("C08:shallow-hairpin-tip-overshoot".to_string(), res.violation.clone().unwrap()));
+        } else if let Some(v) = res.violation {
             co.viol("C08", format!("{} of a long curve: {}", if as_clip { "push_clip" } else { "fill" }, v));
         }
         if want || !co.violations.is_empty() {
@@ -523,7 +659,9 @@ pub fn run(ctx: &Ctx) -> Outcome {
         let mut co = CaseOut::default();
         co.hash = crate::prng::hash_str(&format!("{:?}{:?}{}{}", path, t, aa, as_clip));
         co.nontrivial = res.inside > 0 && res.outside > 0;
-        if let Some(v) = res.violation {
+        if res.violation.is_some() && ctx.known.active("C08", "shallow-hairpin-tip-overshoot") && only_shallow_hairpin_tips(&res, &path, &t) {
+            co.known.push(("C08:shallow-hairpin-tip-overshoot".to_string(), res.violation.clone().unwrap()));
+        } else if let Some(v) = res.violation {
             co.viol("C08", format!("{} of an almost closed outline: {}", if as_clip { "push_clip" } else { "fill" }, v));
         }
         if want || !co.violations.is_empty() {
